@@ -105,6 +105,7 @@ def sync_under_faults(ctx, job):
         hist = []; items = []
         old_views = []
         prev = (0, 0)
+        steps_log = []          # (view value, fault) of every delivered round, for the native replay
         prefix = list(job.get('prefix', []))
         def choose(n, label):
             # the first decisions may be fixed by the job (the scenario is split over worker processes)
@@ -127,11 +128,13 @@ def sync_under_faults(ctx, job):
                 f = FAULTS[choose(len(FAULTS), 'fault')]
                 view = b.view_proxy(addr, 0); old_views.append(clone(view))
                 tr.fault = f; tr.n = 0
+                steps_log.append((clone(view), f))
                 send_round(e, sender, view)
                 prev = record('round with fault %s' % (f,))
             else:
                 view = old_views[choose(len(old_views), 'which-stale')]
                 tr.fault = None; tr.n = 0
+                steps_log.append((clone(view), None))
                 send_round(e, sender, view)
                 prev = record('stale round delivered late')
         # faults stop: three clean rounds with the broker's current view
@@ -146,8 +149,12 @@ def sync_under_faults(ctx, job):
         items.append(('routing-metadata-converges', 'C07/proxy-routing-metadata-does-not-converge', zand([bv(ep) == bv(want), bv(mapep) == bv(want)]), wit))
         items.append(('replication-metadata-converges', 'C07/proxy-replication-metadata-does-not-converge', bv(repl) == bv(want), wit))
         # the installed local ranges are the broker's (master nodes of this proxy)
-        dv = b.dec_proxy(view) if hasattr(b, 'dec_proxy') else None
-        ctx.require_all(e, items)
+        from props.broker import to_serde
+        def rp(m):
+            return {'kind': 'rust-test', 'filter': 'verif_replay_sync_rounds',
+                    'spec': {'host': addr.split(':')[0], 'clean_rounds': 3, 'final_view': to_serde(e.src, view, m),
+                             'steps': [{'view': to_serde(e.src, v, m), 'fault': list(f) if f else None} for v, f in steps_log]}}
+        ctx.require_all(e, items, replay=rp)
         return steps + 3
     res = ctx.explore('send_meta rounds under faults, %d steps, proxy #%d, first decisions %s' % (steps, job.get('which', 0), job.get('prefix')), run, max_paths=100000)
     ctx.ops += sum(p.value or 0 for p in res if p.kind == 'ok')
